@@ -217,7 +217,9 @@ class PathTracer:
             >>> g.trace.circle(center=(-10, 0))
         """
 
-        self.arc(self._g.position, center, **kwargs)
+        position = self._g.position.resolve()
+        target = self._g.to_distance_mode(position)
+        self.arc(target, center, **kwargs)
 
     @typechecked
     def spline(self, targets: Sequence[PointLike], **kwargs) -> None:
